@@ -1477,6 +1477,11 @@ class Interp:
 
     def st_Assert(self, s):
         c = self.to_bool(self.ev(s.test))
+        if getattr(self, 'ghost_mode', False):
+            # a ghost assertion is a proof obligation with a name of its own (never decided silently by path pruning)
+            self.oblige('ghost-assert(%s)' % short(s.test, 60), c, 'ghost-assert')
+            self.assume(c)
+            return
         if not self.choose_bool(c, '@assert:' + short(s.test)):
             raise SymRaise('AssertionError', short(s.test))
 
